@@ -310,6 +310,22 @@ fn judge(run: &Run, s: &Subject, raw_pre: &fmt06::Raw, base_errors: &BTreeMap<u3
             if !deps.contains_key(p) {
                 continue;
             }
+            // an entry with a directory above it that is not listed (an orphan of a stitched
+            // version) is restorable only if restoring some sibling directory happens to create
+            // that directory: nothing is promised for it
+            {
+                let mut a: &str = p;
+                let mut orphan = false;
+                while a != "/" {
+                    a = tree::parent_of(a);
+                    if !deps.contains_key(a) {
+                        orphan = true;
+                    }
+                }
+                if orphan {
+                    continue;
+                }
+            }
             let touched = deps.get(p).map(|ds| ds.contains(&d.relpath)).unwrap_or(false);
             let same = {
                 let mut e1 = Snapshot::new();
